@@ -44,6 +44,7 @@ type Solver struct {
 	log     io.Writer
 	buf     strings.Builder
 	LastErr string
+	Macros  bool // use define-fun macros instead of named constants
 	cache   map[string]Result
 }
 
@@ -165,11 +166,22 @@ func (s *Solver) define(t *term.Term) {
 				}
 				s.send(fmt.Sprintf("(declare-fun %s (%s) %s)", x.S, strings.Join(as, " "), x.Sort.SMT()))
 			}
-			s.send(fmt.Sprintf("(define-fun %s () %s %s)", x.Ref(), x.Sort.SMT(), x.Body()))
+			s.defn(x)
 		default:
-			s.send(fmt.Sprintf("(define-fun %s () %s %s)", x.Ref(), x.Sort.SMT(), x.Body()))
+			s.defn(x)
 		}
 	}
+}
+
+// defn introduces x as a named constant with a defining equation (a conservative extension; unlike
+// define-fun macros it is never expanded, which keeps deep ite/selector DAGs linear for the solver).
+func (s *Solver) defn(x *term.Term) {
+	if s.Macros {
+		s.send(fmt.Sprintf("(define-fun %s () %s %s)", x.Ref(), x.Sort.SMT(), x.Body()))
+		return
+	}
+	s.send(fmt.Sprintf("(declare-const %s %s)", x.Ref(), x.Sort.SMT()))
+	s.send(fmt.Sprintf("(assert (= %s %s))", x.Ref(), x.Body()))
 }
 
 // Assert adds a permanent assertion (axioms about uninterpreted functions).
